@@ -10,7 +10,7 @@ from hypothesis import strategies as st
 from vlib.ref import splitter as S
 from vlib.ref import workflow as RW
 
-TASKS = {"T1": "WT1", "T2": "WT2", "L": "WL", "Sub1": "WSub1", "Sub2": "WSub2"}
+TASKS = {"T1": "WT1", "T2": "WT2", "T3": "WT3", "L": "WL", "Sub1": "WSub1", "Sub2": "WSub2"}
 
 
 # ---------------------------------------------------------------------- rendering
@@ -27,7 +27,7 @@ def render(prog, clsname=None):
     lines = [
         "import typing as ty",
         "from pydra.compose import workflow",
-        "from vlib.tasks import WT1, WT2, WL, WSub1, WSub2",
+        "from vlib.tasks import WT1, WT2, WT3, WL, WSub1, WSub2",
         "",
         f"@workflow.define(outputs={outs!r})",
         f"def {clsname}({', '.join(f'{p}: ty.Any' for p in params)}):",
@@ -107,11 +107,12 @@ def programs(draw, max_nodes=5, allow_inner=True, allow_nested=True, allow_combi
     n = draw(st.integers(1, max_nodes))
     inputs = {}
     nodes = []
-    kinds = ["T1", "T2", "T2"]
+    kinds = ["T1", "T2", "T2", "T3"]
     if allow_inner:
-        kinds.append("L")
+        kinds += ["L", "L"]
     if allow_nested:
         kinds += ["Sub1", "Sub2"]
+    stateless_head = draw(st.integers(0, 2)) == 0  # start with 1-2 nodes that have no state
     for i in range(n):
         kind = draw(st.sampled_from(kinds))
         fields = RW.FIELDS[kind]
@@ -122,13 +123,13 @@ def programs(draw, max_nodes=5, allow_inner=True, allow_nested=True, allow_combi
             choice = draw(st.integers(0, 9))
             if nodes and choice <= 4:
                 src[f] = ["node", draw(st.sampled_from([m["name"] for m in nodes]))]
-            elif choice <= 5:
+            elif choice == 5 or (not nodes and choice <= 1) or (stateless_head and i < 2 and choice >= 7):
                 src[f] = ["const", f"k{i}{f}"]
-            elif choice <= 6:
+            elif choice == 6:
                 nm = f"s{len(inputs)}"
                 inputs[nm] = f"{nm}v"
                 src[f] = ["wfin", nm]
-            elif allow_inner and lists_up and choice == 7 and not any(
+            elif allow_inner and lists_up and choice in (7, 8) and not any(
                     s[0] == "splitnode" for s in src.values()):
                 src[f] = ["splitnode", draw(st.sampled_from(lists_up))]
             else:
@@ -142,20 +143,34 @@ def programs(draw, max_nodes=5, allow_inner=True, allow_nested=True, allow_combi
             for f in sf:
                 src[f] = ["wfin", src[f][1]]
             split = [f for f in fields if src[f][0] == "splitnode"][0]
-        elif len(sf) == 2:
-            la, lb = len(inputs[src[sf[0]][1]]), len(inputs[src[sf[1]][1]])
+        elif len(sf) >= 2:
             op = draw(st.sampled_from("OOI"))
-            if op == "I" and la != lb:
-                # make the lengths agree rather than discarding the case
-                inputs[src[sf[1]][1]] = [f"{src[sf[1]][1]}_{j}" for j in range(la)]
-            order = sf if draw(st.booleans()) else sf[::-1]
-            split = [op, order]
+            order = list(draw(st.permutations(sf)))
+            if len(order) == 3 and draw(st.booleans()):
+                # nested: one operator over a pair and the third field
+                op2 = draw(st.sampled_from("OI"))
+                split = [op, [[op2, order[:2]], order[2]]]
+            else:
+                split = [op, order]
+            # make the lengths agree below inner nodes rather than discarding the case
+            la = len(inputs[src[order[0]][1]])
+
+            def equalise(t, under_inner):
+                if S.is_leaf(t):
+                    if under_inner:
+                        nm = src[t][1]
+                        inputs[nm] = [f"{nm}_{j}" for j in range(la)]
+                    return
+                for k in t[1]:
+                    equalise(k, under_inner or t[0] == "I")
+
+            equalise(split, False)
         elif len(sf) == 1:
             split = sf[0]
         nd = dict(name=name, kind=kind, split=split, combine=None)
         nd["in"] = src
         nodes.append(nd)
-        if allow_combine and draw(st.integers(0, 3)) == 0:
+        if allow_combine and draw(st.integers(0, 9)) <= 1 + 2 * (split is not None):
             partial = dict(inputs=inputs, nodes=nodes, outs=[name])
             try:
                 _, res = RW.evaluate(partial)
@@ -181,3 +196,114 @@ def programs(draw, max_nodes=5, allow_inner=True, allow_nested=True, allow_combi
         prog["wf_split"] = dict(input=k, values=[f"{k}w{j}" for j in range(draw(st.integers(1, 3)))],
                                 combine=draw(st.booleans()))
     return prog
+
+
+# ---------------------------------------------------------------------- shape templates
+def _lst(name, n):
+    return [f"{name}_{j}" for j in range(n)]
+
+
+@st.composite
+def template_programs(draw, allow_inner=True, allow_nested=True, allow_combine=True):
+    """Programs built around a named interaction shape (joins of stateless/stateful inputs,
+    diamonds, own+upstream combiners, inner-split chains), with randomised lengths, kinds,
+    combiners and an optional trailing consumer.  Free random graphs rarely produce these."""
+    shape = draw(st.sampled_from([
+        "stateless_pair_own_split", "stateless_pair_inherited", "fan_in_independent", "diamond",
+        "shared_direct", "own_plus_upstream_combine", "combine_then_consume", "inner_chain",
+        "three_way_join", "two_upstreams_own_split_combine"]))
+    L = lambda: draw(st.integers(1, 3))  # noqa: E731
+    inputs, nodes = {}, []
+
+    def node(kind, src, split=None, combine=None):
+        nd = dict(name=f"n{len(nodes)}", kind=kind, split=split, combine=combine)
+        nd["in"] = src
+        nodes.append(nd)
+        return nd["name"]
+
+    def lst(n=None):
+        nm = f"x{len(inputs)}"
+        inputs[nm] = _lst(nm, n or L())
+        return nm
+
+    one = draw(st.sampled_from(["T1", "Sub1"] if allow_nested else ["T1"]))
+    if shape == "stateless_pair_own_split":
+        a = node("T1", {"a": ["const", "ka"]})
+        b = node(one, {"a": ["const", "kb"]})
+        order = draw(st.permutations(["a", "b", "c"]))
+        src = {order[0]: ["node", a], order[1]: ["node", b], order[2]: ["split", lst()]}
+        node("T3", src, split=order[2])
+    elif shape == "stateless_pair_inherited":
+        a = node("T1", {"a": ["const", "ka"]})
+        b = node("T1", {"a": ["const", "kb"]})
+        s = node(one, {"a": ["split", lst()]}, split="a")
+        order = draw(st.permutations([a, s, b]))
+        node("T3", {"a": ["node", order[0]], "b": ["node", order[1]], "c": ["node", order[2]]})
+    elif shape == "fan_in_independent":
+        a = node("T1", {"a": ["split", lst()]}, split="a")
+        b = node(one, {"a": ["split", lst()]}, split="a")
+        comb = None
+        if allow_combine:
+            comb = draw(st.sampled_from([None, [f"{a}.a"], [f"{b}.a"], [f"{a}.a", f"{b}.a"]]))
+        node("T2", {"a": ["node", a], "b": ["node", b]}, combine=comb)
+    elif shape == "diamond":
+        a = node("T1", {"a": ["split", lst()]}, split="a")
+        b = node("T1", {"a": ["node", a]})
+        c = node(one, {"a": ["node", a]})
+        node("T2", {"a": ["node", b], "b": ["node", c]})
+    elif shape == "shared_direct":
+        a = node("T1", {"a": ["split", lst()]}, split="a")
+        b = node(one, {"a": ["node", a]})
+        pair = draw(st.permutations([a, b]))
+        node("T2", {"a": ["node", pair[0]], "b": ["node", pair[1]]})
+    elif shape == "own_plus_upstream_combine":
+        two = draw(st.booleans())
+        if two:
+            a = node("T2", {"a": ["split", lst()], "b": ["split", lst()]}, split=["O", ["a", "b"]])
+            up_axes = [f"{a}.a", f"{a}.b"]
+        else:
+            a = node("T1", {"a": ["split", lst()]}, split="a")
+            up_axes = [f"{a}.a"]
+        axes = up_axes + ["b"]
+        comb = draw(st.lists(st.sampled_from(axes), min_size=1, max_size=len(axes), unique=True)) \
+            if allow_combine else None
+        node("T2", {"a": ["node", a], "b": ["split", lst()]}, split="b", combine=comb)
+    elif shape == "combine_then_consume":
+        a = node("T2", {"a": ["split", lst()], "b": ["split", lst()]},
+                 split=[draw(st.sampled_from("OO")), ["a", "b"]])
+        comb = draw(st.sampled_from([[f"{a}.a"], [f"{a}.b"], [f"{a}.a", f"{a}.b"]])) if allow_combine else None
+        b = node("T1", {"a": ["node", a]}, combine=comb)
+        node(one, {"a": ["node", b]})
+    elif shape == "inner_chain" and allow_inner:
+        a = node("T1", {"a": ["split", lst()]}, split="a")
+        b = node("L", {"a": ["node", a]})
+        c = node("T1", {"a": ["splitnode", b]}, split="a",
+                 combine=draw(st.sampled_from([None, ["a"], [f"{a}.a"], ["a", f"{a}.a"]])) if allow_combine else None)
+        node("T1", {"a": ["node", c]})
+    elif shape == "two_upstreams_own_split_combine":
+        a = node("T1", {"a": ["split", lst()]}, split="a")
+        b = node(one, {"a": ["split", lst()]}, split="a")
+        axes = ["c", f"{a}.a", f"{b}.a"]
+        comb = draw(st.lists(st.sampled_from(axes), min_size=1, max_size=3, unique=True)) \
+            if allow_combine else None
+        order = draw(st.permutations(["a", "b", "c"]))
+        node("T3", {order[0]: ["node", a], order[1]: ["node", b], order[2]: ["split", lst()]},
+             split=order[2], combine=[order[2] if x == "c" else x for x in comb] if comb else None)
+    else:  # three_way_join
+        a = node("T1", {"a": ["split", lst()]}, split="a")
+        b = node("T1", {"a": ["const", "kb"]})
+        c = node(one, {"a": ["split", lst()]}, split="a")
+        order = draw(st.permutations([a, b, c]))
+        node("T3", {"a": ["node", order[0]], "b": ["node", order[1]], "c": ["node", order[2]]})
+    if draw(st.booleans()):  # trailing consumer of the last node
+        node("T1", {"a": ["node", nodes[-1]["name"]]})
+    outs = [nodes[-1]["name"]]
+    if draw(st.integers(0, 2)) == 0:
+        outs.append(draw(st.sampled_from([m["name"] for m in nodes[:-1]])))
+    return dict(inputs=inputs, nodes=nodes, outs=outs, wf_split=None)
+
+
+def mixed_programs(**kw):
+    """half free random graphs, half shape templates"""
+    tkw = {k: v for k, v in kw.items() if k in ("allow_inner", "allow_nested", "allow_combine")}
+    return st.one_of(programs(**kw), template_programs(**tkw))
